@@ -5,9 +5,11 @@ Message-level facts about the core model (M1), part 1: the vocabulary.
 * `sends msgs` — the `(task id, instance id)` pairs named in the `Msg.compute` messages of a message list, in order;
   `starts cbs` — the `(task id, instance id)` pairs of the `Cb.started` callbacks.
 * `TRel nw cr t t'` — how one task record may change between two states of the same operation: same id, the
-  instance id and the crash counter do not decrease, a *locked* task (Running / RunningMultiNode / Finished) stays
-  locked unless its instance id grows, and — flag `nw`, every function except a scheduling round — a Waiting task
-  stays Waiting; flag `cr`, every function except the crash loop — the crash counter is unchanged.
+  instance id and the crash counter do not decrease, a task that is Running / Finished (`slocked`) stays so unless its
+  instance id grows, a RunningMultiNode task stays RunningMultiNode or becomes Running / Finished unless its instance
+  id grows — or (`task_reject` by the root that has not started it) it goes back to Waiting — and — flag `nw`, every
+  function except a scheduling round — a Waiting task stays Waiting; flag `cr`, every function except the crash loop
+  — the crash counter is unchanged.
 * `Evo nw cr s s'` — every task of `s'` descends (`TRel`) from a task of `s` (membership form: no uniqueness of
   ids needed, so it composes through every intermediate state of an operation).
 * `Tr nw s l s'` — what a function that emitted the sends `l` on the way from `s` to `s'` guarantees about them.
@@ -124,35 +126,133 @@ instance : DecidablePred locked := fun st => by cases st <;> simp only [locked] 
 theorem not_locked_of_waiting {st : TS} (h : isWaiting st) : ¬ locked st := by
   cases st <;> simp_all
 
+/-- executing on ONE worker, or done: Running, Finished (the server has heard that the task started) -/
+def slocked : TS → Prop
+  | .running .. => True
+  | .finished => True
+  | _ => False
+
+/-- placed on a set of workers: RunningMultiNode (started or not: the `started` flag is in the root's record) -/
+def isMN : TS → Prop
+  | .runningMN _ => True
+  | _ => False
+
+@[simp] theorem slocked_waiting (n : Nat) : slocked (.waiting n) ↔ False := Iff.rfl
+@[simp] theorem slocked_assigned (w v : Nat) : slocked (.assigned w v) ↔ False := Iff.rfl
+@[simp] theorem slocked_prefilled (w : Nat) : slocked (.prefilled w) ↔ False := Iff.rfl
+@[simp] theorem slocked_retracting (w : Nat) : slocked (.retracting w) ↔ False := Iff.rfl
+@[simp] theorem slocked_running (w v : Nat) : slocked (.running w v) ↔ True := Iff.rfl
+@[simp] theorem slocked_runningMN (l : List Nat) : slocked (.runningMN l) ↔ False := Iff.rfl
+@[simp] theorem slocked_finished : slocked .finished ↔ True := Iff.rfl
+
+@[simp] theorem isMN_waiting (n : Nat) : isMN (.waiting n) ↔ False := Iff.rfl
+@[simp] theorem isMN_assigned (w v : Nat) : isMN (.assigned w v) ↔ False := Iff.rfl
+@[simp] theorem isMN_prefilled (w : Nat) : isMN (.prefilled w) ↔ False := Iff.rfl
+@[simp] theorem isMN_retracting (w : Nat) : isMN (.retracting w) ↔ False := Iff.rfl
+@[simp] theorem isMN_running (w v : Nat) : isMN (.running w v) ↔ False := Iff.rfl
+@[simp] theorem isMN_runningMN (l : List Nat) : isMN (.runningMN l) ↔ True := Iff.rfl
+@[simp] theorem isMN_finished : isMN .finished ↔ False := Iff.rfl
+
+theorem locked_iff (st : TS) : locked st ↔ slocked st ∨ isMN st := by cases st <;> simp
+
+theorem locked_of_slocked {st : TS} (h : slocked st) : locked st := (locked_iff st).mpr (.inl h)
+theorem locked_of_isMN {st : TS} (h : isMN st) : locked st := (locked_iff st).mpr (.inr h)
+
+/-- `l'` = what is left of the worker list `l` of a multi-node task: workers only leave (loss of a non-root worker),
+the root stays -/
+def KeepL (l l' : List Nat) : Prop := l'.Sublist l ∧ l'.head? = l.head?
+
+theorem KeepL.refl (l : List Nat) : KeepL l l := ⟨List.Sublist.refl _, rfl⟩
+
+theorem KeepL.trans {a b c : List Nat} (h1 : KeepL a b) (h2 : KeepL b c) : KeepL a c :=
+  ⟨h2.1.trans h1.1, h2.2.trans h1.2⟩
+
+/-- a non-empty duplicate-free list stays so -/
+theorem KeepL.shape {l l' : List Nat} (h : KeepL l l') (hl : l ≠ [] ∧ l.Nodup) : l' ≠ [] ∧ l'.Nodup := by
+  refine ⟨?_, h.1.nodup hl.2⟩
+  intro e
+  subst e
+  cases l with
+  | nil => exact hl.1 rfl
+  | cons x xs => have := h.2; simp at this
+
+theorem KeepL.filter {root w : Nat} (others : List Nat) (h : ¬ root = w) :
+    KeepL (root :: others) ((root :: others).filter (· ≠ w)) := by
+  refine ⟨List.filter_sublist, ?_⟩
+  simp [List.filter, h]
+
 /-- how one task record may change inside one operation -/
 structure TRel (nw cr : Prop) (t t' : Task) : Prop where
   id : t'.id = t.id
   inst : t.inst ≤ t'.inst
   crashes : t.crashes ≤ t'.crashes
   wait : nw → isWaiting t.state → isWaiting t'.state
-  lock : locked t.state → locked t'.state ∨ t.inst < t'.inst
+  /-- Running / Finished stays so unless the instance id grows -/
+  lock : slocked t.state → slocked t'.state ∨ t.inst < t'.inst
+  /-- RunningMultiNode stays, or becomes Running / Finished, unless the instance id grows — or the task goes back to
+  Waiting with the SAME instance id (`task_reject` by a root that has not started it; stated under `nw`, where a
+  Waiting task stays Waiting: that is what the composition of sends needs) -/
+  lockM : isMN t.state → isMN t'.state ∨ slocked t'.state ∨ t.inst < t'.inst ∨ (nw → isWaiting t'.state)
+  /-- outside a scheduling round (`nw`) a task is RunningMultiNode only if it was, and its worker list only shrinks,
+  keeping the root -/
+  mnl : nw → ∀ l', t'.state = .runningMN l' → ∃ l, t.state = .runningMN l ∧ KeepL l l'
   creq : cr → t'.crashes = t.crashes
 
 theorem TRel.refl (nw cr : Prop) (t : Task) : TRel nw cr t t :=
-  ⟨rfl, Nat.le_refl _, Nat.le_refl _, fun _ h => h, fun h => Or.inl h, fun _ => rfl⟩
+  ⟨rfl, Nat.le_refl _, Nat.le_refl _, fun _ h => h, fun h => Or.inl h, fun h => Or.inl h,
+    fun _ l' h => ⟨l', h, KeepL.refl _⟩, fun _ => rfl⟩
 
 theorem TRel.trans {nw cr : Prop} {a b c : Task} (h1 : TRel nw cr a b) (h2 : TRel nw cr b c) : TRel nw cr a c := by
-  refine ⟨h2.id.trans h1.id, Nat.le_trans h1.inst h2.inst, Nat.le_trans h1.crashes h2.crashes,
-    fun n h => h2.wait n (h1.wait n h), ?_, fun c => (h2.creq c).trans (h1.creq c)⟩
-  intro hl
-  rcases h1.lock hl with h | h
-  · rcases h2.lock h with h' | h'
+  have hs : slocked b.state → slocked c.state ∨ a.inst < c.inst := fun h => by
+    rcases h2.lock h with h' | h'
     · exact Or.inl h'
     · exact Or.inr (Nat.lt_of_le_of_lt h1.inst h')
-  · exact Or.inr (Nat.lt_of_lt_of_le h h2.inst)
+  refine ⟨h2.id.trans h1.id, Nat.le_trans h1.inst h2.inst, Nat.le_trans h1.crashes h2.crashes,
+    fun n h => h2.wait n (h1.wait n h), ?_, ?_, ?_, fun c => (h2.creq c).trans (h1.creq c)⟩
+  · intro hl
+    rcases h1.lock hl with h | h
+    · exact hs h
+    · exact Or.inr (Nat.lt_of_lt_of_le h h2.inst)
+  · intro hm
+    rcases h1.lockM hm with h | h | h | h
+    · rcases h2.lockM h with h' | h' | h' | h'
+      · exact Or.inl h'
+      · exact Or.inr (Or.inl h')
+      · exact Or.inr (Or.inr (Or.inl (Nat.lt_of_le_of_lt h1.inst h')))
+      · exact Or.inr (Or.inr (Or.inr h'))
+    · rcases hs h with h' | h'
+      · exact Or.inr (Or.inl h')
+      · exact Or.inr (Or.inr (Or.inl h'))
+    · exact Or.inr (Or.inr (Or.inl (Nat.lt_of_lt_of_le h h2.inst)))
+    · exact Or.inr (Or.inr (Or.inr (fun n => h2.wait n (h n))))
+  · intro n l'' hc
+    obtain ⟨l', hb, k2⟩ := h2.mnl n l'' hc
+    obtain ⟨l, ha, k1⟩ := h1.mnl n l' hb
+    exact ⟨l, ha, k1.trans k2⟩
 
 theorem TRel.mono {nw cr nw' cr' : Prop} {a b : Task} (h : TRel nw cr a b) (h1 : nw' → nw) (h2 : cr' → cr) :
     TRel nw' cr' a b :=
-  ⟨h.id, h.inst, h.crashes, fun n => h.wait (h1 n), h.lock, fun c => h.creq (h2 c)⟩
+  ⟨h.id, h.inst, h.crashes, fun n => h.wait (h1 n), h.lock,
+    fun hm => (h.lockM hm).imp (fun x => x) (Or.imp (fun x => x) (Or.imp (fun x => x) (fun f n => f (h1 n)))),
+    fun n => h.mnl (h1 n), fun c => h.creq (h2 c)⟩
+
+/-- a locked task (Running / RunningMultiNode / Finished) stays locked unless its instance id grows — or, in a
+function that places no task, it goes back to Waiting (a multi-node task refused by its root) -/
+theorem TRel.locked {nw cr : Prop} {a b : Task} (h : TRel nw cr a b) (hl : locked a.state) :
+    locked b.state ∨ a.inst < b.inst ∨ (nw → isWaiting b.state) := by
+  rcases (locked_iff _).mp hl with hs | hm
+  · rcases h.lock hs with h' | h'
+    · exact Or.inl (locked_of_slocked h')
+    · exact Or.inr (Or.inl h')
+  · rcases h.lockM hm with h' | h' | h' | h'
+    · exact Or.inl (locked_of_isMN h')
+    · exact Or.inl (locked_of_slocked h')
+    · exact Or.inr (Or.inl h')
+    · exact Or.inr (Or.inr h')
 
 /-- closes `TRel nw cr told { told with … }` goals for concrete record updates -/
 macro "trel" : tactic =>
-  `(tactic| (refine ⟨rfl, ?_, ?_, ?_, ?_, ?_⟩ <;> intros <;> simp_all <;> omega))
+  `(tactic| (refine ⟨rfl, ?_, ?_, ?_, ?_, ?_, ?_, ?_⟩ <;> intros <;> simp_all <;> omega))
 
 /-! ### the relation between two states of one operation -/
 
@@ -249,19 +349,36 @@ theorem getTask_ok {s : State} {id : TaskId} {t : Task} (h : s.getTask id = .ok 
   · rename_i t' ht; cases h; exact ht
   · cases h
 
-/-- only the state changes: Waiting stays Waiting (if `nw`), locked stays locked -/
+/-- only the state changes: Waiting stays Waiting (if `nw`); Running / Finished stays so; RunningMultiNode stays,
+becomes Running / Finished, or (if `nw`) goes back to Waiting; the new state is RunningMultiNode only if the old one was
+(with a worker list that kept the root) -/
 theorem TRel.state {nw cr : Prop} (told : Task) (st : TS) (hw : nw → isWaiting told.state → isWaiting st)
-    (hl : locked told.state → locked st) : TRel nw cr told { told with state := st } :=
-  ⟨rfl, Nat.le_refl _, Nat.le_refl _, hw, fun h => Or.inl (hl h), fun _ => rfl⟩
+    (hl : (slocked told.state → slocked st) ∧ (isMN told.state → isMN st ∨ slocked st ∨ (nw → isWaiting st)) ∧
+      (nw → ∀ l', st = .runningMN l' → ∃ l, told.state = .runningMN l ∧ KeepL l l')) :
+    TRel nw cr told { told with state := st } :=
+  ⟨rfl, Nat.le_refl _, Nat.le_refl _, hw, fun h => Or.inl (hl.1 h),
+    fun h => (hl.2.1 h).imp (fun x => x) (Or.imp (fun x => x) Or.inr), hl.2.2, fun _ => rfl⟩
 
-/-- the instance id grows by one (return from a lost worker) -/
-theorem TRel.bump {nw cr : Prop} (told : Task) (st : TS) (hw : nw → isWaiting told.state → isWaiting st) :
+/-- the instance id grows by one (return from a lost worker); `hm`: the new state is not RunningMultiNode, or the old
+state -/
+theorem TRel.bump {nw cr : Prop} (told : Task) (st : TS) (hw : nw → isWaiting told.state → isWaiting st)
+    (hm : nw → ∀ l', st = .runningMN l' → ∃ l, told.state = .runningMN l ∧ KeepL l l' := by simp) :
     TRel nw cr told { told with inst := told.inst + 1, state := st } :=
-  ⟨rfl, Nat.le_succ _, Nat.le_refl _, hw, fun _ => Or.inr (Nat.lt_succ_self _), fun _ => rfl⟩
+  ⟨rfl, Nat.le_succ _, Nat.le_refl _, hw, fun _ => Or.inr (Nat.lt_succ_self _),
+    fun _ => Or.inr (Or.inr (Or.inl (Nat.lt_succ_self _))), hm, fun _ => rfl⟩
 
 /-- only the consumer list changes -/
 theorem TRel.cons {nw cr : Prop} (told : Task) (c : List TaskId) : TRel nw cr told { told with consumers := c } :=
-  ⟨rfl, Nat.le_refl _, Nat.le_refl _, fun _ h => h, fun h => Or.inl h, fun _ => rfl⟩
+  ⟨rfl, Nat.le_refl _, Nat.le_refl _, fun _ h => h, fun h => Or.inl h, fun h => Or.inl h,
+    fun _ l' h => ⟨l', h, KeepL.refl _⟩, fun _ => rfl⟩
+
+/-- a non-root worker of a multi-node task is lost: it leaves the list -/
+theorem TRel.filterMN {nw cr : Prop} (told : Task) {root w : Nat} {others : List Nat}
+    (hs : told.state = .runningMN (root :: others)) (hr : ¬ root = w) :
+    TRel nw cr told { told with state := .runningMN ((root :: others).filter (· ≠ w)) } :=
+  TRel.state told _ (by simp [hs]) ⟨by simp [hs], by simp [hs], fun _ l' e => by
+    cases e
+    exact ⟨_, hs, KeepL.filter others hr⟩⟩
 
 /-- with unique ids the relation can be read through `findTask` -/
 theorem mem_find_of_nodup {ts : List Task} (hn : (taskIds ts).Nodup) {t : Task} (ht : t ∈ ts) :
@@ -292,12 +409,13 @@ theorem Evo.find {nw cr : Prop} {s s' : State} (h : Evo nw cr s s') (hn : (taskI
 def Mono (l : List (TaskId × Nat)) : Prop := l.Pairwise fun p q => p.1 = q.1 → p.2 ≤ q.2
 
 /-- `l` = the sends emitted on the way from `s` to `s'`:
-* `lo` — the named task is in the map of `s`, its instance id there is not larger than the sent one, strictly
-  smaller if the task was locked (executing) in `s`; flag `nw`: it is not Waiting in `s`;
+* `lo` — the named task is in the map of `s`, its instance id there is not larger than the sent one; flag `nw` (no
+  task is placed on the way): it is not Waiting in `s`, and the sent instance id is strictly larger if the task was
+  locked (Running / RunningMultiNode / Finished) in `s`;
 * `hi` — if the task is still in the map of `s'`, its instance id there is at least the sent one;
 * `mono` — instance ids do not decrease inside `l`. -/
 structure Tr (nw : Prop) (s : State) (l : List (TaskId × Nat)) (s' : State) : Prop where
-  lo : ∀ p ∈ l, ∃ t ∈ s.tasks, t.id = p.1 ∧ t.inst ≤ p.2 ∧ (locked t.state → t.inst < p.2) ∧ (nw → ¬ isWaiting t.state)
+  lo : ∀ p ∈ l, ∃ t ∈ s.tasks, t.id = p.1 ∧ t.inst ≤ p.2 ∧ (nw → locked t.state → t.inst < p.2) ∧ (nw → ¬ isWaiting t.state)
   hi : ∀ p ∈ l, ∀ t' ∈ s'.tasks, t'.id = p.1 → p.2 ≤ t'.inst
   mono : Mono l
 
@@ -307,7 +425,7 @@ theorem Tr.nil (nw : Prop) (s s' : State) : Tr nw s [] s' :=
 theorem Tr.weaken {nw : Prop} {s s' : State} {l} (h : Tr nw s l s') : Tr False s l s' :=
   ⟨fun p hp => by
     obtain ⟨t, a, b, c, d, _⟩ := h.lo p hp
-    exact ⟨t, a, b, c, d, fun f => f.elim⟩, h.hi, h.mono⟩
+    exact ⟨t, a, b, c, fun f => f.elim, fun f => f.elim⟩, h.hi, h.mono⟩
 
 /-- sequential composition -/
 theorem Tr.comp {nw cr : Prop} {s s1 s2 : State} {l1 l2 : List (TaskId × Nat)}
@@ -320,10 +438,11 @@ theorem Tr.comp {nw cr : Prop} {s s1 s2 : State} {l1 l2 : List (TaskId × Nat)}
     · obtain ⟨x1, hx1, a, b, c, d⟩ := t2.lo p h
       obtain ⟨x, hx, r⟩ := e1 x1 hx1
       refine ⟨x, hx, r.id ▸ a, Nat.le_trans r.inst b, ?_, ?_⟩
-      · intro hl
-        rcases r.lock hl with h' | h'
-        · exact Nat.lt_of_le_of_lt r.inst (c h')
+      · intro n hl
+        rcases r.locked hl with h' | h' | h'
+        · exact Nat.lt_of_le_of_lt r.inst (c n h')
         · exact Nat.lt_of_lt_of_le h' b
+        · exact absurd (h' n) (d n)
       · intro n hw; exact d n (r.wait n hw)
   · intro p hp t' ht' hid
     rcases List.mem_append.mp hp with h | h
@@ -360,10 +479,11 @@ theorem Tr.of_post {nw cr : Prop} {s s' : State} {l : List (TaskId × Nat)} (e :
     obtain ⟨t', hf, hi, hw, hl⟩ := hp p hpl
     obtain ⟨t, ht, r⟩ := e t' (findTask_some_mem hf)
     refine ⟨t, ht, r.id.symm.trans (findTask_some_id hf), hi ▸ r.inst, ?_, fun n hw' => hw (r.wait n hw')⟩
-    intro hlk
-    rcases r.lock hlk with h | h
+    intro n hlk
+    rcases r.locked hlk with h | h | h
     · exact absurd h hl
     · exact hi ▸ h
+    · exact absurd (h n) hw
   · intro p hpl t'' ht'' hid
     obtain ⟨t', hf, hi, _⟩ := hp p hpl
     have := mem_find_of_nodup hn ht''
